@@ -34,7 +34,7 @@ namespace kern {
 
 const char *call_names[SC_COUNT] = {"sem_open", "sem_close", "sem_unlink", "sem_wait", "sem_post", "shm_open", "shm_unlink", "ftruncate", "fstat",
                                     "mmap", "munmap", "close", "nanosleep", "socket", "bind", "listen", "accept", "connect", "send", "sendto", "recv",
-                                    "recvfrom", "poll", "shutdown", "getsockopt", "setsockopt", "getsockname", "getpeername", "fcntl", "open", "fopen", "opendir", "dlopen", "pthread_create", "pthread_key_create"};
+                                    "recvfrom", "poll", "shutdown", "getsockopt", "setsockopt", "getsockname", "getpeername", "fcntl", "open", "fopen", "opendir", "dlopen", "pthread_create", "pthread_key_create", "getaddrinfo"};
 
 K *k = nullptr;
 
@@ -76,8 +76,8 @@ int sigpipe_deliveries() { return k->sigpipes; }
 bool sigpipe_ignored(int proc) { return proc_of(proc).sigpipe_ignored; }
 uint64_t msg_errors() { return k->msg_errors; }
 uint64_t msg_warnings() { return k->msg_warnings; }
-int passthrough_open() { return k->files_open + k->dirs_open + k->libs_open; }
-std::string passthrough_desc() { char b[96]; snprintf(b, sizeof b, "%d FILE, %d DIR, %d dlopen handle(s)", k->files_open, k->dirs_open, k->libs_open); return b; }
+int passthrough_open() { return k->files_open + k->dirs_open + k->libs_open + k->addrinfo_open; }
+std::string passthrough_desc() { char b[128]; snprintf(b, sizeof b, "%d FILE, %d DIR, %d dlopen handle(s), %d getaddrinfo result(s)", k->files_open, k->dirs_open, k->libs_open, k->addrinfo_open); return b; }
 int syscalls_in_bracket() { Task *t = cur(); return t ? (int)(t->syscalls - t->api_sys_base) : 0; }
 
 // called at entry of every simulated system call: scheduling point + bookkeeping. Returns invocation index.
@@ -679,6 +679,19 @@ void *simk_dlopen(const char *path, int flags) {
   void *h = dlopen(path, flags);
   if (h && k) k->libs_open++;
   return h;
+}
+// resolver results live on the C library's heap, outside the library's allocator table: counted like streams
+#include <netdb.h>
+int simk_getaddrinfo(const char *node, const char *service, const struct addrinfo *hints, struct addrinfo **res) {
+  int n = sc_enter(SC_GETADDRINFO);
+  if (cur() && want_fail(SC_GETADDRINFO, n)) return EAI_MEMORY;
+  int r = getaddrinfo(node, service, hints, res);
+  if (r == 0 && k) k->addrinfo_open++;
+  return r;
+}
+void simk_freeaddrinfo(struct addrinfo *res) {
+  if (k && res) k->addrinfo_open--;
+  freeaddrinfo(res);
 }
 int simk_dlclose(void *h) {
   if (k && h) k->libs_open--;
